@@ -72,6 +72,12 @@ def run(ctx: Ctx):
                sample=dict(guards=[(u(t)[:60], pol) for t, pol in gs]))
         # the mutation that accompanies the flag must also be inside the permission
     # any in-place mutation / rebinding of the tensors under validate must be in a permitted branch
+    # rows of the reference tensor: loop variables of `for i, r in enumerate(<ref>)`
+    row_vars = set()
+    for n in own_nodes(f.node):
+        if isinstance(n, ast.For) and isinstance(n.iter, ast.Call) and call_name(n.iter) == "enumerate" and n.iter.args \
+                and u(n.iter.args[0]) == kindvar["ref"] and isinstance(n.target, ast.Tuple):
+            row_vars.add(n.target.elts[1].id)
     nmut = 0
     for n in own_nodes(f.node):
         if isinstance(n, ast.Assign) and len(n.targets) == 1:
@@ -79,7 +85,7 @@ def run(ctx: Ctx):
             root = t
             while isinstance(root, (ast.Subscript, ast.Attribute)):
                 root = root.value
-            if isinstance(root, ast.Name) and (root.id in var2kind or root.id == "r") and n.lineno > loop.lineno:
+            if isinstance(root, ast.Name) and (root.id in var2kind or root.id in row_vars) and n.lineno > loop.lineno:
                 gs = guards_of(pm, n)
                 under_validate = any(pol and u(tt) == "validate" for tt, pol in gs)
                 if not under_validate:
@@ -226,8 +232,13 @@ def run(ctx: Ctx):
         parts = set()
         if isinstance(va, ast.BoolOp) and isinstance(va.op, ast.Or):
             parts = {u(x) for x in va.values}
-        ok = parts == {"options.strict", "options.fix is not None"} and u(got.get("info")) == "True" \
-            and u(got.get("fix")) == "options.fix"
+        ov = None
+        for n in own_nodes(cli.node):
+            if isinstance(n, ast.Assign) and isinstance(n.value, ast.Call) and isinstance(n.value.func, ast.Attribute) \
+                    and n.value.func.attr == "parse_args" and isinstance(n.targets[0], ast.Name):
+                ov = n.targets[0].id
+        ok = parts == {f"{ov}.strict", f"{ov}.fix is not None"} and u(got.get("info")) == "True" \
+            and u(got.get("fix")) == f"{ov}.fix"
         col.ob("G1", "S5", "command_line.py::get_torch_spect_data_dir_info::_info_and_validate-binding", ok,
                f"the command validates iff `{u(va)}`; expected --strict or --fix given "
                f"(options.strict or options.fix is not None), fix=options.fix", "command_line.py", c.lineno,
@@ -287,7 +298,15 @@ def _dir_kind(save_call: ast.Call, rd: ReachingDefs) -> str:
 
 def _s4(ctx, f, pm, rd, kindvar, where, rel):
     col = ctx.col
-    ali, ref = kindvar["ali"], kindvar["ref"]
+    ali, ref, feat = kindvar["ali"], kindvar["ref"], kindvar["feat"]
+    # T := the frame count, first element unpacked from <feat>.shape
+    T = None
+    for n in own_nodes(f.node):
+        if isinstance(n, ast.Assign) and isinstance(n.targets[0], ast.Tuple) and u(n.value) == f"{feat}.shape" \
+                and len(n.targets[0].elts) == 2:
+            T = u(n.targets[0].elts[0])
+    if T is None:
+        raise AnalysisError("C12: the frame count (T, F = feat.shape) was not found")
 
     def ren(s: str) -> str:
         for a in (f"{ali}.shape[0]", f"{ali}.size(0)", f"len({ali})"):
@@ -302,7 +321,7 @@ def _s4(ctx, f, pm, rd, kindvar, where, rel):
             crops.append(("ali", n))
         # r[2] = T
         if isinstance(n, ast.Assign) and len(n.targets) == 1 and isinstance(n.targets[0], ast.Subscript) \
-                and u(n.targets[0].slice) == "2" and u(n.value) == "T":
+                and u(n.targets[0].slice) == "2" and u(n.value) == T:
             crops.append(("ref", n))
     col.floor("crop_sites", len(crops), 2)
     for kind, n in crops:
@@ -312,8 +331,8 @@ def _s4(ctx, f, pm, rd, kindvar, where, rel):
         got = set()
         subst = {}
         for d in rd.defs:
-            if d.kind == "assign" and d.name == "Tp" and d.value is not None:
-                subst["Tp"] = d.value
+            if d.kind == "assign" and d.value is not None and u(d.value) in (f"{ali}.size(0)", f"{ali}.shape[0]", f"len({ali})"):
+                subst[d.name] = d.value
         nz = Normalizer(rename=ren, subst=subst)
         for cj in conj:
             if isinstance(cj, ast.Compare) and u(cj) != "fix is not None":
@@ -322,13 +341,13 @@ def _s4(ctx, f, pm, rd, kindvar, where, rel):
                     got.add(cmp_norm(left, op, right, nz))
                     left = right
         if kind == "ali":
-            exp_src = ["LEN_ALI - T <= fix", "LEN_ALI - T > 0"]
-            if n.value.slice.upper is None or u(n.value.slice.upper) != "T" or n.value.slice.lower is not None:
+            exp_src = [f"LEN_ALI - {T} <= fix", f"LEN_ALI - {T} > 0"]
+            if n.value.slice.upper is None or u(n.value.slice.upper) != T or n.value.slice.lower is not None:
                 col.ob("G12", "S4", f"{where}::ali-crop-to-T", False,
                        f"the alignment is cropped with `{u(n.value)}`, expected the first T frames", rel, n.lineno)
         else:
             rv = u(n.targets[0].value)
-            exp_src = [f"{rv}[2] - T <= fix", f"{rv}[1] <= T"]
+            exp_src = [f"{rv}[2] - {T} <= fix", f"{rv}[1] <= {T}"]
         want = set()
         for s_ in exp_src:
             c = ast.parse(s_, mode="eval").body
@@ -346,6 +365,18 @@ def _s6(ctx, rel):
     rd = ReachingDefs(f.node)
     cats = [c for c in own_calls(f.node) if call_name(c) == "torch.cat" and c.args and isinstance(c.args[0], (ast.List, ast.Tuple))]
     col.floor("load_ref_cat_sites", len(cats), 4)
+    # the dimensionality variable: bound from <tensor>.ndim / .dim() (possibly in a parallel assignment)
+    ndim_names = set()
+    for d in rd.defs:
+        v = d.value
+        if v is None:
+            continue
+        cands = [v]
+        if isinstance(v, ast.Tuple):
+            cands = list(v.elts)
+        if any((isinstance(x, ast.Attribute) and x.attr == "ndim") or (isinstance(x, ast.Call) and isinstance(x.func, ast.Attribute)
+                                                                     and x.func.attr == "dim") for x in cands):
+            ndim_names.add(d.name)
     seen = set()
     for c in cats:
         gs = guards_of(pm, c)
@@ -368,7 +399,8 @@ def _s6(ctx, rel):
                    f"with the transcript", rel, c.lineno)
             continue
         other = elts[1 - pos[0]]
-        dim2 = any(u(t) == "D == 2" and pol for t, pol in gs)
+        dim2 = any(isinstance(t, ast.Compare) and len(t.ops) == 1 and isinstance(t.ops[0], ast.Eq) and u(t.comparators[0]) == "2"
+                   and isinstance(t.left, ast.Name) and t.left.id in ndim_names and pol for t, pol in gs)
         key = f"{sym}-{'2d' if dim2 else '1d'}"
         seen.add(key)
         want_pos = 1 if sym == "sos" else 0  # transcript position in the list
@@ -418,7 +450,9 @@ def _s6(ctx, rel):
             if der is not None:
                 for x in der.nodes():
                     if isinstance(x, ast.Subscript) and isinstance(x.slice, (ast.Constant, ast.UnaryOp)) \
-                            and u(x.value).endswith("_idxs"):
+                            and isinstance(x.value, ast.Name) and any(
+                                isinstance(d2.value, ast.Call) and call_name(d2.value) == "torch.nonzero"
+                                for d2 in rdw.defs_of(x.value)):
                         pick = u(x.slice)
                 for x in rdw.derives(bound, max_depth=3).nodes():
                     if isinstance(x, ast.Name) and x.id == sym:
